@@ -4,6 +4,7 @@ import (
 	"context"
 	"encoding/json"
 	"fmt"
+	"math"
 	"sort"
 	"strings"
 	"time"
@@ -78,9 +79,11 @@ const (
 	rDialTwoOptionsClose
 	rDialAnyLiveCtxClose
 	rDialAnyDoneCtxClose
+	rCmdOnClosedConn
+	rDialNoPortClose
 )
 
-var c18RealNames = map[int]string{rDialOk: "dial-ok", rDialFail: "dial-fail", rCmdOk: "cmd-ok", rCmdLostThenOk: "cmd-lost-then-ok", rTransportClose: "transport-close", rNSOk: "new-session-ok", rSessClose: "session-close", rDialZeroTimeoutClose: "dial-with-zero-timeout-then-close", rDialNegTimeoutClose: "dial-with-negative-timeout-then-close", rDialTwoOptionsClose: "dial-with-two-options-then-close", rDialAnyLiveCtxClose: "version-agnostic-dial-then-close", rDialAnyDoneCtxClose: "version-agnostic-dial-with-a-done-context-then-close"}
+var c18RealNames = map[int]string{rDialOk: "dial-ok", rDialFail: "dial-fail", rCmdOk: "cmd-ok", rCmdLostThenOk: "cmd-lost-then-ok", rTransportClose: "transport-close", rNSOk: "new-session-ok", rSessClose: "session-close", rDialZeroTimeoutClose: "dial-with-zero-timeout-then-close", rDialNegTimeoutClose: "dial-with-negative-timeout-then-close", rDialTwoOptionsClose: "dial-with-two-options-then-close", rDialAnyLiveCtxClose: "version-agnostic-dial-then-close", rDialAnyDoneCtxClose: "version-agnostic-dial-with-a-done-context-then-close", rCmdOnClosedConn: "dial-close-then-command-on-the-closed-connection", rDialNoPortClose: "dial-address-without-port-then-close"}
 
 func c18Names(ops []int) []string {
 	var out []string
@@ -112,14 +115,6 @@ func gather() (map[string]float64, error) {
 			var ls []string
 			for _, l := range m.GetLabel() {
 				v := l.GetValue()
-				if name == "bmc_command_responses_total" && l.GetName() == "code" {
-					// the label names the code as 0xNN followed by a description in
-					// brackets; only the code is compared (an empty or otherwise
-					// shaped label then matches no expectation)
-					if k := strings.Index(v, "("); k >= 0 {
-						v = v[:k]
-					}
-				}
 				ls = append(ls, l.GetName()+"="+v)
 			}
 			key := name + "{" + strings.Join(ls, ",") + "}"
@@ -138,6 +133,10 @@ type expect map[string]float64
 
 func (e expect) add(k string, v float64) { e[k] += v }
 
+// free marks a series whose change the property does not determine in this
+// history (not compared).
+func (e expect) free(k string) { e[k] = math.NaN() }
+
 // account adds what one SendCommand call must contribute, from the harness's
 // own observations: its name, the transmissions made, the valid responses
 // (with their codes) the environment delivered, and whether it returned an error.
@@ -147,14 +146,91 @@ func (e expect) account(name string, transmissions int, codes []byte, failed boo
 		e.add("bmc_command_retries_total{}", float64(transmissions-1))
 	}
 	for _, c := range codes {
-		e.add(fmt.Sprintf("bmc_command_responses_total{code=%#.2x}", c), 1)
+		e.add("bmc_command_responses_total{code="+c18Label(c)+"}", 1)
 	}
 	if failed {
 		e.add("bmc_command_failures_total{command="+name+"}", 1)
 	}
 }
 
+// c18Labels: which value of the "code" label the library counts each
+// completion code under. It is learned by observation (one response per code
+// on a scratch connection), not taken from the library's String method and not
+// assumed to have a particular format; what is demanded of it is that it is
+// non-empty and different for different codes, so that "responses per
+// completion code" can be read off the metric at all.
+var c18Labels map[byte]string
+var c18LabelProblem string
+
+func c18Label(c byte) string {
+	if c18Labels == nil {
+		c18Calibrate()
+	}
+	return c18Labels[c]
+}
+
+func c18Calibrate() {
+	c18Labels = map[byte]string{}
+	cfg := histConfig(ref.Suite{Auth: 1, Integ: 1, Conf: 1})
+	w := newWorld(cfg, nil, nil)
+	risen := func(before, after map[string]float64) []string {
+		var out []string
+		for k, v := range after {
+			if strings.HasPrefix(k, "bmc_command_responses_total{code=") && v > before[k] {
+				out = append(out, strings.TrimSuffix(strings.TrimPrefix(k, "bmc_command_responses_total{code="), "}"))
+			}
+		}
+		sort.Strings(out)
+		return out
+	}
+	seen := map[string]byte{}
+	for cc := 0; cc < 256; cc++ {
+		first := true
+		w.T.Menu = func(t *env.Transport, req []byte) []env.Answer {
+			if first {
+				first = false
+				return []env.Answer{env.Code("code", byte(cc))}
+			}
+			return []env.Answer{env.Honest()}
+		}
+		before, _ := gather()
+		w.T.BeginOp()
+		guard(func() { w.Conn.SendCommand(w.Ctx, &ipmi.GetSystemGUIDCmd{}) })
+		after, _ := gather()
+		var ls []string
+		for _, l := range risen(before, after) {
+			if cc != 0 && l == c18Labels[0] {
+				continue // the honest reply that followed a temporary code
+			}
+			ls = append(ls, l)
+		}
+		switch {
+		case len(ls) != 1:
+			if c18LabelProblem == "" {
+				c18LabelProblem = fmt.Sprintf("a valid response with completion code %#02x raised %d series of bmc_command_responses_total (%q), want exactly one", cc, len(ls), ls)
+			}
+		case ls[0] == "":
+			if c18LabelProblem == "" {
+				c18LabelProblem = fmt.Sprintf("a valid response with completion code %#02x is counted under an empty code label", cc)
+			}
+			c18Labels[byte(cc)] = ls[0]
+		default:
+			if prev, dup := seen[ls[0]]; dup && c18LabelProblem == "" {
+				c18LabelProblem = fmt.Sprintf("completion codes %#02x and %#02x are counted under the same label %q", prev, cc, ls[0])
+			}
+			seen[ls[0]] = byte(cc)
+			c18Labels[byte(cc)] = ls[0]
+		}
+	}
+}
+
 func c18One(c c18Case) (string, string) {
+	if c18Labels == nil {
+		c18Calibrate()
+	}
+	if c18LabelProblem != "" {
+		return "C18/bmc_command_responses_total/code-label", c18LabelProblem
+	}
 	if c.Real {
 		return c18Real(c)
 	}
@@ -395,6 +471,9 @@ func c18Compare(before, after map[string]float64, exp expect, ops []string) (str
 			continue
 		}
 		delta := after[k] - before[k]
+		if math.IsNaN(exp[k]) {
+			continue
+		}
 		if delta != exp[k] {
 			name := k
 			if i := strings.Index(name, "{"); i > 0 {
@@ -439,16 +518,21 @@ func c18Real(c c18Case) (string, string) {
 				exp.add("bmc_connections_open{version=2.0}", 1)
 				conns = append(conns, conn)
 			}
-		case rDialZeroTimeoutClose, rDialNegTimeoutClose, rDialTwoOptionsClose:
+		case rDialZeroTimeoutClose, rDialNegTimeoutClose, rDialTwoOptionsClose, rDialNoPortClose:
 			// unusual option values: whatever DialV2 makes of them, the accounting
 			// must follow what it returned
 			opts := []bmc.DialConfigOption{bmc.WithTimeout(0)}
+			addr := u.addr()
+			if op == rDialNoPortClose {
+				// no port in the address: the default port is used; a UDP "connection" needs no peer
+				opts, addr = nil, "127.0.0.1"
+			}
 			if op == rDialNegTimeoutClose {
 				opts = []bmc.DialConfigOption{bmc.WithTimeout(-time.Second)}
 			} else if op == rDialTwoOptionsClose {
 				opts = []bmc.DialConfigOption{bmc.WithTimeout(time.Hour), bmc.WithTimeout(time.Nanosecond)}
 			}
-			conn, err := bmc.DialV2(u.addr(), opts...)
+			conn, err := bmc.DialV2(addr, opts...)
 			exp.add("bmc_connection_open_attempts_total{version=2.0}", 1)
 			if err != nil {
 				exp.add("bmc_connection_open_failures_total{version=2.0}", 1)
@@ -474,6 +558,27 @@ func c18Real(c c18Case) (string, string) {
 				conn.Close()
 				exp.add("bmc_connections_open{version=2.0}", -1)
 			}
+		case rCmdOnClosedConn:
+			// a command on a connection whose socket is closed: one attempt, one
+			// failure, no retries that reach the wire are claimed
+			conn, err := bmc.DialV2(u.addr(), bmc.WithTimeout(c18RealTimeout))
+			exp.add("bmc_connection_open_attempts_total{version=2.0}", 1)
+			if err != nil {
+				exp.add("bmc_connection_open_failures_total{version=2.0}", 1)
+				break
+			}
+			exp.add("bmc_connections_open{version=2.0}", 1)
+			conn.Close()
+			exp.add("bmc_connections_open{version=2.0}", -1)
+			cctx, ccancel := context.WithTimeout(context.Background(), 300*time.Millisecond)
+			_, cerr := conn.GetSystemGUID(cctx)
+			ccancel()
+			if cerr == nil {
+				return "C18/real/command-succeeds-on-closed-connection", "GetSystemGUID on a closed connection returned no error"
+			}
+			exp.add("bmc_command_attempts_total{command=Get System GUID}", 1)
+			exp.add("bmc_command_failures_total{command=Get System GUID}", 1)
+			exp.free("bmc_command_retries_total{}")
 		case rDialFail:
 			_, err := bmc.DialV2("256.0.0.1:notaport")
 			exp.add("bmc_connection_open_attempts_total{version=2.0}", 1)
@@ -631,7 +736,7 @@ func runC18(r *rep.R) {
 		do(c18Case{Ops: []int{kNSOk, 1000 + cc, kCloseOk}})
 	}
 	// dial / transport close histories
-	realOps := []int{rDialOk, rDialFail, rCmdOk, rCmdLostThenOk, rNSOk, rSessClose, rTransportClose, rDialZeroTimeoutClose, rDialNegTimeoutClose, rDialTwoOptionsClose, rDialAnyLiveCtxClose, rDialAnyDoneCtxClose}
+	realOps := []int{rDialOk, rDialFail, rCmdOk, rCmdLostThenOk, rNSOk, rSessClose, rTransportClose, rDialZeroTimeoutClose, rDialNegTimeoutClose, rDialTwoOptionsClose, rDialAnyLiveCtxClose, rDialAnyDoneCtxClose, rCmdOnClosedConn, rDialNoPortClose}
 	var genR func(cur []int)
 	depthR := 3
 	if thorough(r) {
